@@ -157,49 +157,47 @@ func (s *srcSto) Fetch(ctx context.Context, br blob.Ref) (io.ReadCloser, uint32,
 	return rc, size, nil
 }
 
+func (s *srcSto) fetches() int {
+	s.mu.Lock()
+	defer s.mu.Unlock()
+	return s.nFetch
+}
+
 func (s *srcSto) consumed() bool {
 	s.mu.Lock()
 	defer s.mu.Unlock()
 	return s.healed || s.nFetch >= len(s.pat)
 }
 
-// dstSto is the gate destination of the "mem" configuration (faults through the plan).
+// dstSto is the destination as the handler sees it: a gate store over the destination MemStore ("mem"
+// configuration) or a real index.Index over a gate KV ("index" configuration) behind a recording wrapper.
+// The destination failures of the scenario are failures of the destination as a blob receiver: "error" = the
+// call fails and nothing is stored, "after" = the blob is stored but the reply is an error, "wrongsize" = it is
+// stored and size+1 is reported.  The outcome of the k-th receive of the incarnation follows the scenario's
+// pattern until the heal mark, and every receive is logged as it was reported.  If the process died inside
+// the destination (index: between two of its row writes), the durable state tells whether the blob got
+// recorded all the same (logged as "after": stored, reply lost).
 type dstSto struct {
-	*gate.Storage
-	fl *flight
+	blobserver.Storage
+	fl     *flight
+	lg     *gate.Log
+	id     func(blob.Ref) int
+	plan   *gate.Plan
+	stored func(blob.Ref) bool
+	ix     *index.Index // index configuration only
+	mu     sync.Mutex
+	n      int
+	pat    []string
+	healed bool
+}
+
+func (d *dstSto) consumed() bool {
+	d.mu.Lock()
+	defer d.mu.Unlock()
+	return d.healed || d.n >= len(d.pat)
 }
 
 func (d *dstSto) ReceiveBlob(ctx context.Context, br blob.Ref, r io.Reader) (blob.SizedRef, error) {
-	d.fl.in()
-	defer d.fl.out()
-	return d.Storage.ReceiveBlob(ctx, br, r)
-}
-
-// ixDst is the destination of the "index" configuration: a real index.Index over a gate KV.  The
-// destination failures of the scenario are failures of the destination as a blob receiver, so they are
-// injected here, around the index: "error" = the call fails before the index sees the blob, "after" = the index
-// processed it but the reply is an error, "wrongsize" = it processed it and size+1 is reported.  The outcome of
-// every receive is logged as reported; if the process died inside the index, the rows tell whether the blob got
-// recorded all the same (logged as "after": stored, reply lost).
-type ixDst struct {
-	*index.Index
-	fl      *flight
-	lg      *gate.Log
-	id      func(blob.Ref) int
-	backing sorted.KeyValue
-	plan    *gate.Plan
-	mu      sync.Mutex
-	n       int
-	pat     []string
-}
-
-func (d *ixDst) consumed() bool {
-	d.mu.Lock()
-	defer d.mu.Unlock()
-	return d.n >= len(d.pat)
-}
-
-func (d *ixDst) ReceiveBlob(ctx context.Context, br blob.Ref, r io.Reader) (blob.SizedRef, error) {
 	d.fl.in()
 	defer d.fl.out()
 	if d.plan.Frozen() {
@@ -207,7 +205,7 @@ func (d *ixDst) ReceiveBlob(ctx context.Context, br blob.Ref, r io.Reader) (blob
 	}
 	d.mu.Lock()
 	o := "ok"
-	if d.n < len(d.pat) {
+	if !d.healed && d.n < len(d.pat) {
 		o = d.pat[d.n]
 	}
 	d.n++
@@ -217,18 +215,18 @@ func (d *ixDst) ReceiveBlob(ctx context.Context, br blob.Ref, r io.Reader) (blob
 		d.lg.Emit(gate.Event{"ev": "recv", "b": d.id(br), "res": "error"})
 		return blob.SizedRef{}, gate.ErrInjected
 	}
-	sb, err := d.Index.ReceiveBlob(ctx, br, r)
-	if d.plan.Frozen() {
-		// died inside the index: whatever reached the rows is durable, the reply is lost
-		if _, gerr := d.backing.Get("have:" + br.String()); gerr == nil {
-			d.lg.Emit(gate.Event{"ev": "recv", "b": d.id(br), "res": "after"})
-		}
-		return blob.SizedRef{}, gate.ErrFrozen
-	}
+	sb, err := d.Storage.ReceiveBlob(ctx, br, r)
 	if err != nil {
-		// the index itself refused the blob: an observation like any other
+		if d.plan.Frozen() {
+			// died inside the destination: whatever reached the durable state stays, the reply is lost
+			if d.stored(br) {
+				d.lg.Emit(gate.Event{"ev": "recv", "b": d.id(br), "res": "after"})
+			}
+			return blob.SizedRef{}, gate.ErrFrozen
+		}
+		// the destination itself refused the blob: an observation like any other
 		res := "error"
-		if _, gerr := d.backing.Get("have:" + br.String()); gerr == nil {
+		if d.stored(br) {
 			res = "after"
 		}
 		d.lg.Emit(gate.Event{"ev": "recv", "b": d.id(br), "res": res})
@@ -284,10 +282,10 @@ func (l *loader) FindHandlerByType(string) (string, any, error) {
 	return "", nil, blobserver.ErrHandlerTypeNotFound
 }
 func (l *loader) AllHandlers() (map[string]string, map[string]any) { return nil, nil }
-func (l *loader) MyPrefix() string                                  { return "/sync/" }
-func (l *loader) BaseURL() string                                   { return "http://localhost:1" }
-func (l *loader) GetHandlerType(string) string                      { return "" }
-func (l *loader) GetHandler(p string) (any, error)                  { return l.m[p], nil }
+func (l *loader) MyPrefix() string                                 { return "/sync/" }
+func (l *loader) BaseURL() string                                  { return "http://localhost:1" }
+func (l *loader) GetHandlerType(string) string                     { return "" }
+func (l *loader) GetHandler(p string) (any, error)                 { return l.m[p], nil }
 func (l *loader) GetStorage(p string) (blobserver.Storage, error) {
 	if s, ok := l.m[p]; ok {
 		return s, nil
@@ -345,13 +343,10 @@ func (u *universe) id(br blob.Ref) int { return u.byID[br] }
 // ---------------------------------------------------------------- one run
 
 type incarnation struct {
-	once  sync.Once
-	plan  *gate.Plan
-	src   *srcSto
-	dstM  *dstSto
-	dstI  *ixDst
-	h     any
-	phase *Phase
+	once sync.Once // crash mark written
+	plan *gate.Plan
+	src  *srcSto
+	dst  *dstSto
 }
 
 type run struct {
@@ -379,7 +374,7 @@ func (r *run) mark(ev string) { r.lg.Emit(gate.Event{"ev": ev, "b": 0, "res": ""
 // start creates a handler incarnation. It returns false if the incarnation died while starting.
 func (r *run) start(ph *Phase) bool {
 	r.mark("start")
-	inc := &incarnation{plan: gate.NewPlan(), phase: ph}
+	inc := &incarnation{plan: gate.NewPlan()}
 	if ph.Freeze > 0 {
 		inc.plan.FreezeAt = ph.Freeze
 	}
@@ -407,19 +402,7 @@ func (r *run) start(ph *Phase) bool {
 		fatal(fmt.Errorf("run %d: starting an incarnation failed although nothing was frozen: %v", r.scn.ID, err))
 		return false
 	}
-	// destination failure pattern: the k-th destination write of this incarnation (mem: plan faults at the
-	// gate store; index: at the recording wrapper around the index)
-	if r.scn.Cfg != "index" {
-		j := 0
-		for a, kind := range ph.Dst {
-			if kind == "ok" || kind == "" {
-				continue
-			}
-			// faults are matched in list order and a fault that fires hides the call from the later ones
-			inc.plan.Faults = append(inc.plan.Faults, &gate.Fault{Layer: "dst", Call: "ReceiveBlob", N: a + 1 - j, Kind: kind})
-			j++
-		}
-	}
+	inc.dst = &dstSto{fl: r.fl, lg: r.lg, id: r.u.id, plan: inc.plan, pat: ph.Dst}
 	if r.scn.Cfg == "index" {
 		kv := gate.NewKV("ixkv", r.ixBack, inc.plan, nil)
 		ix, err := newIndex(kv, inc.plan)
@@ -427,14 +410,13 @@ func (r *run) start(ph *Phase) bool {
 			return died(err)
 		}
 		ix.InitBlobSource(sg)
-		inc.dstI = &ixDst{Index: ix, fl: r.fl, lg: r.lg, id: r.u.id, backing: r.ixBack, plan: inc.plan, pat: ph.Dst}
-		ld.m["/dst/"] = inc.dstI
+		inc.dst.Storage, inc.dst.ix = ix, ix
+		inc.dst.stored = func(br blob.Ref) bool { _, err := r.ixBack.Get("have:" + br.String()); return err == nil }
 	} else {
-		dg := gate.NewStorage("dst", r.dstMem, inc.plan, r.lg)
-		dg.Rank = func(br blob.Ref) any { return r.u.id(br) }
-		inc.dstM = &dstSto{Storage: dg, fl: r.fl}
-		ld.m["/dst/"] = inc.dstM
+		inc.dst.Storage = gate.NewStorage("dst", r.dstMem, inc.plan, nil)
+		inc.dst.stored = r.dstMem.Has
 	}
+	ld.m["/dst/"] = inc.dst
 	pool := r.scn.Pool
 	if pool <= 0 {
 		pool = 5
@@ -450,7 +432,6 @@ func (r *run) start(ph *Phase) bool {
 			fatal(err)
 		}
 	}
-	inc.h = h
 	return true
 }
 
@@ -614,23 +595,32 @@ func (r *run) settled() func() bool {
 	}
 }
 
-// await polls cond; while nothing happens at the gates it wakes the copy loop
-// the only way the handler offers: by enqueueing a blob it has not seen (the
-// loop otherwise sleeps for the 5 s queueSyncInterval after a round in which
-// every copy failed).  Returns false on watchdog expiry or when the incarnation froze.
 // expired counts bounded waits that ran out.  On a healthy tree none does; once many have (a broken tree),
 // the remaining runs use a shorter horizon so that the check still ends in reasonable time.
 var expired atomic.Int64
 
+// await polls cond; while nothing happens at the gates (and needWork says something is still owed) it wakes
+// the copy loop the only way the handler offers: by enqueueing a blob it has not seen (the loop otherwise
+// sleeps for the 5 s queueSyncInterval after a round in which every copy failed; a wake-up that arrives while
+// the loop is not yet sleeping is lost, so wake-ups are repeated with growing pauses).  The wake-up blobs are
+// ordinary uploads and are validated like all others.  Returns false on expiry or when the incarnation froze.
 func (r *run) await(cond func() bool, wd time.Duration, needWork func() bool) bool {
 	inc := r.cur
-	if expired.Load() > 24 {
+	if n := expired.Load(); n > 300 {
 		wd = wd / 8
+	} else if n > 60 {
+		wd = wd / 3
 	}
-	deadline := time.Now().Add(wd)
+	// The horizon is measured in effective time: a poll counts for at most 1 ms, so that a process starved of
+	// CPU (the machine is shared) does not run out of patience while the handler had no chance to work; and
+	// while work is owed, patience only ends after several wake-ups in a row went unanswered by the copier.
+	var eff, idleEff time.Duration
+	hard := time.Now().Add(45 * time.Second)
+	prev := time.Now()
 	last := r.lg.Len()
-	lastT := time.Now()
 	idle := 4 * time.Millisecond
+	unanswered := 0
+	fetches := inc.src.fetches()
 	for {
 		if inc.plan.Frozen() {
 			return false
@@ -639,13 +629,22 @@ func (r *run) await(cond func() bool, wd time.Duration, needWork func() bool) bo
 			return true
 		}
 		now := time.Now()
-		if now.After(deadline) {
+		d := now.Sub(prev)
+		prev = now
+		if d > time.Millisecond {
+			d = time.Millisecond
+		}
+		eff += d
+		if f := inc.src.fetches(); f != fetches {
+			fetches, unanswered, idle = f, 0, 4*time.Millisecond
+		}
+		if (eff > wd && (unanswered >= 6 || !needWork())) || now.After(hard) {
 			expired.Add(1)
 			return false
 		}
 		if n := r.lg.Len(); n != last {
-			last, lastT = n, now
-		} else if now.Sub(lastT) > idle && needWork() {
+			last, idleEff = n, 0
+		} else if idleEff += d; idleEff > idle && needWork() {
 			if r.nextWk <= maxBlob {
 				id := r.nextWk
 				r.nextWk++
@@ -653,8 +652,11 @@ func (r *run) await(cond func() bool, wd time.Duration, needWork func() bool) bo
 				r.tried[id] = true
 				r.uploadNote(inc, id)
 			}
-			idle = idle * 3 / 2
-			last, lastT = r.lg.Len(), time.Now()
+			unanswered++
+			if idle = idle * 3 / 2; idle > 150*time.Millisecond {
+				idle = 150 * time.Millisecond
+			}
+			last, idleEff, prev = r.lg.Len(), 0, time.Now()
 		}
 		time.Sleep(100 * time.Microsecond)
 	}
@@ -749,19 +751,20 @@ func (r *run) exec() {
 			}
 			continue
 		}
-		// last phase: use up the armed faults, heal, wait (bounded) for delivery
-		r.await(func() bool {
-			return inc.plan.HitCount() == len(inc.plan.Faults) && inc.src.consumed() && (inc.dstI == nil || inc.dstI.consumed())
-		}, watchdog, func() bool { return true })
-		r.fl.drain()
+		// last phase: let the armed faults be used up (best effort), heal, wait (bounded) for delivery
+		r.await(func() bool { return inc.src.consumed() && inc.dst.consumed() }, watchdog, func() bool { return true })
 		inc.src.mu.Lock()
 		inc.src.healed = true
-		r.mark("heal")
 		inc.src.mu.Unlock()
+		inc.dst.mu.Lock()
+		inc.dst.healed = true
+		inc.dst.mu.Unlock()
+		r.fl.drain() // calls that chose their outcome before the switch have logged it
+		r.mark("heal")
 		r.await(r.settled(), watchdog, r.undelivered)
-		if inc.dstI != nil && !inc.plan.Frozen() {
+		if inc.dst.ix != nil && !inc.plan.Frozen() {
 			done := make(chan bool, 1)
-			go func() { inc.dstI.Index.VerifAwaitAsyncIndexing(); done <- true }()
+			go func() { inc.dst.ix.VerifAwaitAsyncIndexing(); done <- true }()
 			select {
 			case <-done:
 			case <-time.After(watchdog):
@@ -825,14 +828,6 @@ func project(evs []gate.Event) []gate.Event {
 			line["ev"] = "del"
 		case layer == "queue" && call == "Find":
 			line["ev"] = "find"
-		case layer == "dst" && call == "ReceiveBlob":
-			line["ev"] = "recv"
-			switch res {
-			case "injected":
-				line["res"] = "error"
-			case "injected-after":
-				line["res"] = "after"
-			}
 		default:
 			line["ev"] = fmt.Sprintf("other:%v.%v", layer, call)
 		}
